@@ -271,6 +271,7 @@ def content(model):
         "compartments": _freeze(dict(model.compartments)),
         "tolerance": model.tolerance,
         "direction": model.objective_direction,
+        "objective_name": getattr(model.solver.objective, "name", None),
         "reactions": rx,
         "metabolites": mets,
         "genes": genes,
@@ -284,10 +285,16 @@ def content(model):
     }
 
 
+# The name of the solver objective (a uuid by default) is compared only where a driver asks
+# for it (C03, C13: it must survive contexts and analyses because constraints such as
+# "fixed_objective_<name>" are looked up by it); copies get a fresh name by design.
+COMPARE_OBJECTIVE_NAME = False
+
+
 def content_diff(a, b, ignore=("order",), rel=0.0):
     out = []
-    for k in ("id", "name", "notes", "annotation", "compartments", "tolerance", "direction"):
-        if k in ignore:
+    for k in ("id", "name", "notes", "annotation", "compartments", "tolerance", "direction", "objective_name"):
+        if k in ignore or (k == "objective_name" and not COMPARE_OBJECTIVE_NAME):
             continue
         if a[k] != b[k]:
             out.append(f"model.{k}: {a[k]!r} -> {b[k]!r}")
